@@ -23,6 +23,11 @@ def load_spec():
                 continue
             if "class" in m and cid != m["class"]:
                 continue
+            if "add_constraint" in o:
+                # a co-constraint stated by the normative text (tr_tables.load_spec): recorded for the generator
+                if set(m["slots"]) <= {s["name"] for s in c["slots"]} and c["family"] not in m.get("family_not", []):
+                    c.setdefault("extra_constraints", []).append(o["add_constraint"])
+                continue
             for s in c["slots"]:
                 if s["name"] == m["slot"]:
                     s.update(copy.deepcopy(o["set"]))
@@ -59,7 +64,31 @@ for _k in list(HASH_VALUES):
     if n:
         HASH_VALUES[_k] = (HASH_VALUES[_k] * 3)[:n]
 
+import re as _re0
+_TS = _re0.compile(r"^(\d{4}-\d{2}-\d{2}T\d{2}:\d{2}:\d{2})(?:\.(\d+))?Z$")
 FRACS = ["", ".0", ".5", ".12", ".123", ".1230", ".123456", ".000001", ".999999", ".100000", ".000"]
+
+
+def versioned(c):
+    """The class carries the common properties created / modified (not the file-system times of the 2.0
+    file / directory observables)."""
+    names = {s["name"] for s in c["slots"]}
+    return "created" in names and "modified" in names and c["family"] != "sco"
+
+
+def instant(text):
+    """Exact instant of a timestamp text as a Fraction of seconds (None when it is not one)."""
+    import datetime
+    from fractions import Fraction
+    m = _TS.match(text) if isinstance(text, str) else None
+    if not m:
+        return None
+    try:
+        d = datetime.datetime.strptime(m.group(1), "%Y-%m-%dT%H:%M:%S")
+    except ValueError:
+        return None
+    frac = Fraction(int(m.group(2)), 10 ** len(m.group(2))) if m.group(2) else Fraction(0)
+    return (d - datetime.datetime(1, 1, 1)) // datetime.timedelta(seconds=1) + frac
 
 
 class Gen:
@@ -357,6 +386,11 @@ class Gen:
                 out["pattern_version"] = "2.1"
         if n == "ObservedData" and c["ver"] == "2.0":
             pass
+        # common properties: modified is not earlier than created (no random draws: swap)
+        if versioned(c) and isinstance(out.get("created"), str) and isinstance(out.get("modified"), str):
+            a, b = instant(out["created"]), instant(out["modified"])
+            if a is not None and b is not None and b < a:
+                out["created"], out["modified"] = out["modified"], out["created"]
 
     def toplevel_ids(self):
         """class ids that are parse() entry points (registered object / observable types)."""
@@ -421,6 +455,11 @@ def corruptions(gen, cid, o):
         k = s["kind"]
         t = k["k"]
         x = dict(o)
+        if t == "int":
+            # a boolean where an integer is required (1 / 0 lie inside most ranges; Python's bool is an int)
+            y = dict(o)
+            y[s["name"]] = r.choice([True, False])
+            out.append(("bool-for-int", s["name"], y))
         if t == "int" and (k["min"] is not None or k["max"] is not None):
             x[s["name"]] = (k["min"] - 1) if k["min"] is not None and r.random() < 0.5 or k["max"] is None else k["max"] + 1
             out.append(("out-of-range", s["name"], x))
@@ -478,6 +517,16 @@ def corruptions(gen, cid, o):
         elif t == "dict" and r.random() < 0.5:
             x[s["name"]] = r.choice([{"a": 1}, {"bad key": 1}, {"k" * 300: 1}, {"key\n": 1}, {}, "notdict", 5])
             out.append(("bad-dict", s["name"], x))
+        elif t == "dict":
+            # the keys are fine; a value carries a null or an empty list (at some depth)
+            x[s["name"]] = r.choice([{"key_a": None}, {"key_a": []}, {"key_a": "v", "key_b": [None]}, {"key_a": {"n": None}},
+                                      {"key_a": [[]]}, {"key_a": {"n": {"deep": []}}}, {"key_a": ["v", None]}])
+            out.append(("bad-dict-value", s["name"], x))
+        elif t == "binary":
+            x[s["name"]] = r.choice(["aGVs bG8=", "aGVsbG8=\n", "aGVsbG8=!!garbage", "aGVsbG8", "a", "====", "aGVsbG8=aGVsbG8=",
+                                      "!!!!", "aGVs\tbG8=", "aGVsbG8= ", " aGVsbG8=", "aGVsbG8==", "aGVsbA=", "aGVsbG9=",
+                                      "aGVs-G8_", "YQ", "YQ=", "\u00e9GVsbG8="])
+            out.append(("bad-binary", s["name"], x))
     r.shuffle(out)
     return out
 
@@ -556,6 +605,18 @@ def coconstraint_corruptions(gen, cid, o):
                 if c["name"] == "NetworkTraffic":
                     x["is_active"] = False
                 out.append(("co-constraint", "%s-%s-%s" % (later, label, earlier), x))
+    if versioned(c):
+        # common properties: modified before created (reversed, by one millisecond, by sub-millisecond digits)
+        # and the boundary modified == created
+        alts = [("modified-before-created", "2016-06-01T00:00:00.000Z", "2015-06-01T00:00:00.000Z"),
+                ("modified-just-before-created", "2016-06-01T00:00:00.000Z", "2016-05-31T23:59:59.999Z"),
+                ("modified-equals-created", "2016-06-01T00:00:00.000Z", "2016-06-01T00:00:00.000Z")]
+        if c["ver"] == "2.1":
+            alts.append(("modified-submillisecond-before-created", "2016-06-01T00:00:00.000500Z", "2016-06-01T00:00:00.000499Z"))
+        for label, cr, mo in alts:
+            x = dict(o)
+            x["created"], x["modified"] = cr, mo
+            out.append(("co-constraint", label, x))
     n = c["name"]
     if n == "NetworkTraffic" and c["ver"] == "2.1":
         x = dict(o)
@@ -659,6 +720,43 @@ def py_value_cases(gen, cid, o):
             x = dict(o)
             x[name] = {"__py__": r.choice(["datetime", "datetime-naive", "date"]), "items": [2016, 5, 17, 1, 2, 3, 123456]}
             out.append(("py-datetime", name, x))
+        elif k["k"] == "embedded":
+            # an already constructed object where a dictionary is usual: of the right class, of the right class
+            # but built with allow_custom (carrying a custom property), of another class
+            try:
+                sub = gen.obj(k["cls"], 1, {"safe": True})
+            except (ValueError, IndexError, KeyError):
+                continue
+            x = dict(o)
+            x[name] = {"__py__": "stix", "cid": k["cls"], "kwargs": sub, "allow": False}
+            out.append(("py-object", name, x))
+            x = dict(o)
+            x[name] = {"__py__": "stix", "cid": k["cls"], "kwargs": dict(sub, x_custom_inside=1), "allow": True}
+            out.append(("py-object-custom", name, x))
+            x = dict(o)
+            x[name] = {"__py__": "stix", "cid": c["ver"] + "/KillChainPhase" if not k["cls"].endswith("KillChainPhase") else c["ver"] + "/ExternalReference",
+                       "kwargs": ({"kill_chain_name": "k", "phase_name": "p"} if not k["cls"].endswith("KillChainPhase") else {"source_name": "s", "url": "http://x"}),
+                       "allow": False}
+            out.append(("py-object-other-class", name, x))
+        elif k["k"] == "extensions" and c["family"] == "sco":
+            ext = gen.extensions(k["ver"], 0, {"owner_type": c["type"], "safe": True})
+            if ext:
+                (ename, sub), = ext.items()
+                ecid = gen.reg[k["ver"]]["extensions"][ename]
+                for label, kw, allow in (("py-extension-object", sub, False), ("py-extension-object-custom", dict(sub, x_custom_inside=1), True)):
+                    x = dict(o)
+                    x[name] = {ename: {"__py__": "stix", "cid": ecid, "kwargs": kw, "allow": allow}}
+                    out.append((label, name, x))
+        elif k["k"] == "marking":
+            # `definition` given as a marking object: of the kind definition_type names, and of the other kind
+            ver = k["ver"]
+            for label, dt, mc, kw in (("py-marking-object", "statement", "StatementMarking", {"statement": "s"}),
+                                      ("py-marking-other-kind", "statement", "TLPMarking", {"tlp": "white"}),
+                                      ("py-marking-other-kind", "tlp", "StatementMarking", {"statement": "s"})):
+                x = {kk: v for kk, v in o.items() if kk not in ("definition", "definition_type", "id", "created")}
+                x["definition_type"] = dt
+                x["definition"] = {"__py__": "stix", "cid": ver + "/" + mc, "kwargs": kw, "allow": False}
+                out.append((label, name, x))
     r.shuffle(out)
     return out
 
